@@ -444,6 +444,14 @@ def wl_huge_file(ctx, rng, case):
                 orc.completed += 1
                 ctx.count("huge_file.additions_with_probes_sharing_a_byte")
             whole_file(f"after addition #{i + 1} ({case.ops[-1][0]})")
+            if i == n_add // 2 and rng.random() < 0.6:
+                # an explicit clear in the middle: the file is again the export of an empty filter, whatever part of it held bits
+                case.op("clear")
+                f.clear()
+                orc.model = refimpl.BloomModel(m, k)
+                orc.completed = 0
+                whole_file("after clear()")
+                ctx.count("huge_file.clears")
         f.close()
         whole_file("after close")
         os.chdir(sc.other)
